@@ -69,7 +69,7 @@ def all_jobs():
     mg = '_ZNK4bloc12FORStatement4doitERNS_7ContextE'
     CTX_STUBS = ['_ZN4bloc7Context10topControlEv', '_ZN4bloc7Context14topControlDataEv', '_ZN4bloc7Context12stackControlEPKNS_10ControllerEPv',
                  '_ZN4bloc7Context14unstackControlEv', '_ZN4bloc7Context9getSymbolEj', '_ZN4bloc7Context13storeVariableEjONS_5ValueE',
-                 '_ZN4bloc10Executable3runERNS_7ContextERKNSt7__cxx114listIPKNS_9StatementESaIS6_EEE']
+                 '_ZN4bloc10Executable3runERNS_7ContextERKNSt7__cxx114listIPKNS_9StatementESaIS7_EEE']
     J.append(dict(id='stmt_for_doit', src='blocc/statement_for.cpp', contract='stmt_for.c', enforce=mg, roots=[mg], replace=[VCALL_VALUE] + CTX_STUBS,
                   cut=[VCALL_VALUE, RTE_CTOR, RTE_CTOR_S] + CTX_STUBS, props=['C01', 'C06'], pretty='bloc::FORStatement::doit', canaries=['normal', 'exceptional'],
                   structs=DEFAULT_STRUCTS + ['bloc::Symbol', 'bloc::Context', 'bloc::Executable']))
